@@ -34,6 +34,8 @@ type fsrv struct {
 	cert   tls.Certificate
 	nconn  atomic.Int32
 	nq     atomic.Int32
+
+	closeOnEOF atomic.Bool // life mode: the server closes its side when the client goes away
 }
 
 func (s *fsrv) f() string { return s.fault.Load().(string) }
@@ -80,9 +82,12 @@ func (s *fsrv) streamServe(c net.Conn, useTLS bool) {
 		tc := tls.Server(c, &tls.Config{Certificates: []tls.Certificate{s.cert}})
 		if err := tc.Handshake(); err != nil {
 			c.Close()
+			s.conns.Delete(c)
 			return
 		}
+		raw := c
 		s.conns.Store(tc, true)
+		defer s.conns.Delete(raw)
 		c = tc
 	}
 	if s.f() == "silent" {
@@ -93,10 +98,16 @@ func (s *fsrv) streamServe(c net.Conn, useTLS bool) {
 	h := make([]byte, 2)
 	for {
 		if _, err := io.ReadFull(c, h); err != nil {
+			if s.closeOnEOF.Load() {
+				c.Close()
+			}
 			return
 		}
 		b := make([]byte, binary.BigEndian.Uint16(h))
 		if _, err := io.ReadFull(c, b); err != nil {
+			if s.closeOnEOF.Load() {
+				c.Close()
+			}
 			return
 		}
 		s.nq.Add(1)
@@ -201,6 +212,9 @@ func newFsrv(kind string) *fsrv {
 					s.nconn.Add(1)
 					s.conns.Store(c, true)
 				}
+				if st == http.StateClosed || st == http.StateHijacked {
+					s.conns.Delete(c)
+				}
 			},
 			Handler: http.HandlerFunc(func(w http.ResponseWriter, r *http.Request) {
 				s.nq.Add(1)
@@ -259,6 +273,7 @@ func newFsrv(kind string) *fsrv {
 					for {
 						st, err := c.AcceptStream(context.Background())
 						if err != nil {
+							s.conns.Delete(c)
 							return
 						}
 						go func() {
